@@ -681,3 +681,298 @@ Proof.
   - reflexivity.
   - vm_compute. discriminate.
 Qed.
+
+
+(* ============================================================ generalised bodies: C03 *)
+Section GC03.
+  Variable apply : layer -> tensor -> tensor.
+  Variable bin : Z -> tensor -> tensor -> tensor.
+  Hypothesis apply_ext : forall l x y, teq x y -> teq (apply l x) (apply l y).
+  Hypothesis bin_ext : forall op x y x' y', teq x x' -> teq y y' -> teq (bin op x y) (bin op x' y').
+
+  Lemma eval_body_ext : forall e x y, teq x y -> teq (eval_body apply bin e x) (eval_body apply bin e y).
+  Proof. induction e; intros x y H; cbn; [exact H|apply apply_ext, IHe, H|apply bin_ext; [apply IHe1|apply IHe2]; exact H]. Qed.
+
+  Lemma g_eval_node_ext : forall th n x y, teq x y -> teq (g_eval_node apply bin qmix th n x) (g_eval_node apply bin qmix th n y).
+  Proof.
+    intros th [l|e|b brs] x y H; cbn; [apply apply_ext, H|apply eval_body_ext, H|]. apply qmix_ext.
+    induction brs; cbn; constructor; [apply eval_body_ext, H|exact IHbrs].
+  Qed.
+
+  Lemma g_eval_ext : forall th g x y, teq x y -> teq (g_eval apply bin qmix th g x) (g_eval apply bin qmix th g y).
+  Proof. induction g; intros x y H; cbn; [exact H|]. apply IHg, g_eval_node_ext, H. Qed.
+
+  Lemma g_eval_app : forall th a b x, g_eval apply bin qmix th (a ++ b) x = g_eval apply bin qmix th b (g_eval apply bin qmix th a x).
+  Proof. intros. unfold g_eval. apply fold_left_app. Qed.
+
+  (* hard (one-hot) coefficients: the SuperNet computes what the exported network computes, for bodies with
+     binary ops (residuals) as well *)
+  Theorem g_hard_eq_export : forall g win th th' e x,
+    (forall b brs, In (GChoice b brs) g -> th b = one_hot (win b) (length brs)) ->
+    g_export win g = Some e ->
+    teq (g_eval apply bin qmix th g x) (g_eval apply bin qmix th' e x).
+  Proof.
+    induction g as [|n g IH]; intros win th th' e x Hth He.
+    - injection He as <-. apply teq_refl.
+    - cbn in He.
+      destruct (g_export_node win n) as [a|] eqn:Ea; [|discriminate].
+      destruct (g_export win g) as [r|] eqn:Er; [|discriminate].
+      injection He as <-. rewrite g_eval_app. cbn [g_eval fold_left].
+      change (fold_left (fun v n0 => g_eval_node apply bin qmix th n0 v) g) with (g_eval apply bin qmix th g).
+      eapply teq_trans.
+      2:{ apply (IH win th th' r); [intros; apply Hth; right; assumption|exact Er]. }
+      apply g_eval_ext.
+      destruct n as [l|e0|b brs]; cbn in Ea.
+      + injection Ea as <-. cbn. apply teq_refl.
+      + injection Ea as <-. cbn. apply teq_refl.
+      + destruct (nth_error brs (win b)) as [br|] eqn:En; [|discriminate].
+        injection Ea as <-. cbn.
+        rewrite (Hth b brs (or_introl eq_refl)).
+        rewrite <- (map_length (fun e0 => eval_body apply bin e0 x) brs).
+        apply qmix_one_hot. rewrite nth_error_map, En. reflexivity.
+  Qed.
+End GC03.
+
+(* ------------------------------------------------------------ structure *)
+Definition g_expand (win : Z -> nat) (n : gnode) : list gnode :=
+  match n with GChoice b brs => [GBody (nth (win b) brs BIn)] | _ => [n] end.
+Definition g_winners_ok (win : Z -> nat) (g : gnet) : Prop :=
+  forall b brs, In (GChoice b brs) g -> (win b < length brs)%nat.
+
+Lemma g_export_some : forall g win, g_winners_ok win g -> g_export win g = Some (flat_map (g_expand win) g).
+Proof.
+  induction g as [|n g IH]; intros win H; [reflexivity|].
+  cbn. rewrite IH by (intros b brs Hin; apply (H b brs); right; exact Hin).
+  destruct n as [l|e|b brs]; cbn; try reflexivity.
+  destruct (nth_error brs (win b)) as [br|] eqn:E.
+  - cbn. rewrite (nth_error_nth _ _ _ E). reflexivity.
+  - apply nth_error_None in E. specialize (H b brs (or_introl eq_refl)). lia.
+Qed.
+
+Lemma g_export_none : forall g win, g_export win g <> None -> g_winners_ok win g.
+Proof.
+  induction g as [|n g IH]; intros win H b brs Hin; [destruct Hin|].
+  cbn in H.
+  destruct (g_export_node win n) as [a|] eqn:Ea; [|congruence].
+  destruct (g_export win g) as [r|] eqn:Er; [|congruence].
+  destruct Hin as [->|Hin].
+  - cbn in Ea. destruct (nth_error brs (win b)) eqn:E; [|discriminate]. apply nth_error_Some. congruence.
+  - apply (IH win); [rewrite Er; discriminate|exact Hin].
+Qed.
+
+Theorem g_export_succeeds_iff : forall g win, g_export win g <> None <-> g_winners_ok win g.
+Proof. split; [apply g_export_none|]. intro H. rewrite (g_export_some _ _ H). discriminate. Qed.
+
+(* exported network: every fixed layer / fixed body untouched, in place of every block exactly the winner's body *)
+Theorem g_export_tree : forall g win e, g_export win g = Some e ->
+  g_is_plain e = true /\ e = flat_map (g_expand win) g /\
+  (forall b brs, In (GChoice b brs) g -> exists br, nth_error brs (win b) = Some br /\ g_expand win (GChoice b brs) = [GBody br]).
+Proof.
+  intros g win e He.
+  assert (Hw : g_winners_ok win g) by (apply g_export_none; congruence).
+  rewrite (g_export_some _ _ Hw) in He. injection He as <-.
+  split; [|split; [reflexivity|]].
+  - unfold g_is_plain. rewrite forallb_forall. intros n Hn. apply in_flat_map in Hn. destruct Hn as [m [_ Hm]].
+    destruct m; cbn in Hm; destruct Hm as [<-|[]]; reflexivity.
+  - intros b brs Hin. specialize (Hw b brs Hin). destruct (nth_error brs (win b)) as [br|] eqn:E.
+    + exists br. split; [reflexivity|]. cbn. rewrite (nth_error_nth _ _ _ E). reflexivity.
+    + apply nth_error_None in E. lia.
+Qed.
+
+Theorem g_export_idempotent : forall g win win' e, g_export win g = Some e -> g_export win' e = Some e.
+Proof.
+  intros g win win' e He.
+  destruct (g_export_tree g win e He) as [Hp _]. clear He. induction e as [|n e IH]; [reflexivity|].
+  cbn in Hp. apply andb_true_iff in Hp. destruct Hp as [Hn Hp]. cbn. rewrite (IH Hp).
+  destruct n; [reflexivity|reflexivity|discriminate].
+Qed.
+
+Theorem g_export_deterministic : forall g win win',
+  (forall b brs, In (GChoice b brs) g -> win b = win' b) -> g_export win g = g_export win' g.
+Proof.
+  induction g as [|n g IH]; intros win win' H; [reflexivity|].
+  cbn. rewrite (IH win win') by (intros; eapply H; right; eassumption).
+  destruct n as [l|e|b brs]; [reflexivity|reflexivity|]. cbn. rewrite (H b brs (or_introl eq_refl)). reflexivity.
+Qed.
+
+(* ------------------------------------------------------------ flattening commutes with export *)
+Lemma sn_export_gen_app : forall a b win, sn_export win (a ++ b) =
+  match sn_export win a, sn_export win b with Some x, Some y => Some (x ++ y) | _, _ => None end.
+Proof.
+  induction a as [|n a IH]; intros b win.
+  - cbn. destruct (sn_export win b); reflexivity.
+  - unfold sn_export in *. cbn. rewrite IH.
+    destruct (export_node false win n); [|reflexivity].
+    destruct (sn_export_gen false win a); [|reflexivity].
+    destruct (sn_export_gen false win b); [rewrite app_assoc; reflexivity|reflexivity].
+Qed.
+
+Lemma sn_export_plain : forall ls win, sn_export win (map NFixed ls) = Some (map NFixed ls).
+Proof. induction ls; intro win; [reflexivity|]. unfold sn_export in *. cbn. rewrite IHls. reflexivity. Qed.
+
+Theorem g_flatten_export : forall g win,
+  sn_export win (g_flatten g) = option_map g_flatten (g_export win g).
+Proof.
+  induction g as [|n g IH]; intro win; [reflexivity|].
+  unfold g_flatten in *. cbn [flat_map]. rewrite sn_export_gen_app, IH. cbn [g_export].
+  destruct n as [l|e|b brs]; cbn [g_flatten_node g_export_node].
+  - change [NFixed l] with (map NFixed [l]). rewrite sn_export_plain.
+    destruct (g_export win g); reflexivity.
+  - rewrite sn_export_plain. destruct (g_export win g); cbn; rewrite ?app_nil_r; reflexivity.
+  - unfold sn_export. cbn. unfold pick. rewrite nth_error_map.
+    destruct (nth_error brs (win b)); cbn; [|reflexivity].
+    destruct (g_export win g); cbn; rewrite ?app_nil_r; reflexivity.
+Qed.
+
+(* module tree of the exported network *)
+Lemma in_g_flatten_choice : forall g b brs, In (NChoice b brs) (g_flatten g) <->
+  exists gbrs, In (GChoice b gbrs) g /\ brs = map body_layers gbrs.
+Proof.
+  intros g b brs. unfold g_flatten. rewrite in_flat_map. split.
+  - intros [n [Hn Hi]]. destruct n as [l|e|b' gbrs]; cbn in Hi.
+    + destruct Hi as [Hi|[]]; discriminate.
+    + apply in_map_iff in Hi. destruct Hi as [l [Hl _]]. discriminate.
+    + destruct Hi as [Hi|[]]. injection Hi as <- <-. exists gbrs. split; [exact Hn|reflexivity].
+  - intros [gbrs [Hn ->]]. exists (GChoice b gbrs). split; [exact Hn|left; reflexivity].
+Qed.
+
+Lemma in_g_flatten_fixed : forall g l, In (NFixed l) (g_flatten g) <->
+  In (GFixed l) g \/ exists e, In (GBody e) g /\ In l (body_layers e).
+Proof.
+  intros g l. unfold g_flatten. rewrite in_flat_map. split.
+  - intros [n [Hn Hi]]. destruct n as [l'|e|b' gbrs]; cbn in Hi.
+    + destruct Hi as [Hi|[]]. injection Hi as <-. left. exact Hn.
+    + apply in_map_iff in Hi. destruct Hi as [l' [Hl Hi]]. injection Hl as <-. right. exists e. auto.
+    + destruct Hi as [Hi|[]]; discriminate.
+  - intros [H|[e [He Hl]]].
+    + exists (GFixed l). split; [exact H|left; reflexivity].
+    + exists (GBody e). split; [exact He|]. cbn. apply in_map. exact Hl.
+Qed.
+
+Theorem g_export_modules : forall g win e i, g_export win g = Some e ->
+  (In i (g_mods e) <->
+   In (GFixed (Mod i)) g \/ (exists b0, In (GBody b0) g /\ In (Mod i) (body_layers b0)) \/
+   exists b brs br, In (GChoice b brs) g /\ nth_error brs (win b) = Some br /\ In (Mod i) (body_layers br)).
+Proof.
+  intros g win e i He. unfold g_mods.
+  pose proof (g_flatten_export g win) as Hc. rewrite He in Hc. cbn in Hc.
+  rewrite (sn_export_modules (g_flatten g) win (g_flatten e) i Hc). split.
+  - intros [H|[b [brs [br [Hn [E Hi]]]]]].
+    + apply in_g_flatten_fixed in H. destruct H as [H|H]; [left; exact H|right; left; exact H].
+    + apply in_g_flatten_choice in Hn. destruct Hn as [gbrs [Hn ->]]. rewrite nth_error_map in E.
+      destruct (nth_error gbrs (win b)) as [gbr|] eqn:E'; [|discriminate]. injection E as <-.
+      right. right. exists b, gbrs, gbr. auto.
+  - intros [H|[[b0 [Hb Hi]]|[b [brs [br [Hn [E Hi]]]]]]].
+    + left. apply in_g_flatten_fixed. left. exact H.
+    + left. apply in_g_flatten_fixed. right. exists b0. auto.
+    + right. exists b, (map body_layers brs), (body_layers br). split; [|split].
+      * apply in_g_flatten_choice. exists brs. auto.
+      * rewrite nth_error_map, E. reflexivity.
+      * exact Hi.
+Qed.
+
+(* ------------------------------------------------------------ chain bodies are an instance *)
+Lemma body_layers_chain_aux : forall b e, body_layers (fold_left (fun e l => BApp l e) b e) = body_layers e ++ b.
+Proof. induction b as [|l b IH]; intro e; cbn; [rewrite app_nil_r; reflexivity|]. rewrite IH. cbn. rewrite <- app_assoc. reflexivity. Qed.
+Lemma body_layers_chain : forall b, body_layers (chain_body b) = b.
+Proof. intro b. unfold chain_body. rewrite body_layers_chain_aux. reflexivity. Qed.
+
+Lemma g_flatten_embed : forall nt, g_flatten (embed nt) = nt.
+Proof.
+  induction nt as [|n nt IH]; [reflexivity|]. unfold g_flatten, embed in *. cbn. rewrite IH.
+  destruct n as [l|b brs]; cbn; [reflexivity|]. f_equal. f_equal. rewrite map_map.
+  rewrite <- (map_id brs) at 2. apply map_ext. intro a. apply body_layers_chain.
+Qed.
+
+Section Embed.
+  Context {T : Type}.
+  Variable apply : layer -> T -> T.
+  Variable bin : Z -> T -> T -> T.
+  Variable mix : list Q -> list T -> T.
+
+  Lemma eval_chain_aux : forall b e x, eval_body apply bin (fold_left (fun e l => BApp l e) b e) x = run_branch apply b (eval_body apply bin e x).
+  Proof. induction b as [|l b IH]; intros e x; cbn; [reflexivity|]. rewrite IH. reflexivity. Qed.
+
+  Lemma eval_chain_body : forall b x, eval_body apply bin (chain_body b) x = run_branch apply b x.
+  Proof. intros. unfold chain_body. rewrite eval_chain_aux. reflexivity. Qed.
+
+  (* the generalised evaluation of an embedded chain network IS sn_eval *)
+  Theorem g_eval_embed : forall th nt x, g_eval apply bin mix th (embed nt) x = sn_eval apply mix th nt x.
+  Proof.
+    induction nt as [|n nt IH]; intro x; [reflexivity|]. cbn. unfold g_eval, sn_eval in IH. rewrite IH. f_equal.
+    destruct n as [l|b brs]; cbn; [reflexivity|]. f_equal. rewrite map_map. apply map_ext. intro a. apply eval_chain_body.
+  Qed.
+End Embed.
+
+(* ============================================================ generalised bodies: C06 (through the leaf layers) *)
+Section GC06.
+  Variable cost : Z -> nat -> Q.
+
+  Theorem g_cost_is_weighted_mix : forall shared th g,
+    g_cost cost shared false th g ==
+    qsum (map (fun e => match e with ECombiner b brs => dot (th b) (map (branch_cost cost) brs) | ELayer _ _ => 0 end) (target_list shared (g_flatten g))).
+  Proof. intros. apply sn_cost_is_weighted_mix. Qed.
+
+  Theorem g_cost_full_adds_fixed : forall shared th g,
+    g_cost cost shared true th g == g_cost cost shared false th g + fixed_cost cost shared (g_flatten g).
+  Proof. intros. apply sn_cost_full_adds_fixed. Qed.
+
+  Definition g_blocks_consistent (g : gnet) : Prop :=
+    forall b brs brs', In (GChoice b brs) g -> In (GChoice b brs') g -> brs = brs'.
+  Definition g_coeffs_ok (th : Z -> list Q) (g : gnet) : Prop :=
+    forall b brs, In (GChoice b brs) g -> prob (th b) /\ length (th b) = length brs.
+
+  Lemma g_consistent_flatten : forall g, g_blocks_consistent g -> blocks_consistent (g_flatten g).
+  Proof.
+    intros g H b brs brs' H1 H2. apply in_g_flatten_choice in H1. apply in_g_flatten_choice in H2.
+    destruct H1 as [g1 [H1 ->]]. destruct H2 as [g2 [H2 ->]]. rewrite (H b g1 g2 H1 H2). reflexivity.
+  Qed.
+  Lemma g_coeffs_flatten : forall th g, g_coeffs_ok th g -> coeffs_ok th (g_flatten g).
+  Proof.
+    intros th g H b brs H1. apply in_g_flatten_choice in H1. destruct H1 as [g1 [H1 ->]].
+    rewrite map_length. apply (H b g1 H1).
+  Qed.
+  Lemma g_winners_flatten : forall win g, g_winners_ok win g -> winners_ok win (g_flatten g).
+  Proof.
+    intros win g H b brs H1. apply in_g_flatten_choice in H1. destruct H1 as [g1 [H1 ->]].
+    rewrite map_length. apply (H b g1 H1).
+  Qed.
+
+  Definition g_hard_sel (g : gnet) := hard_sel (g_flatten g).
+
+  Theorem g_cost_convex : forall shared full th g, g_blocks_consistent g -> g_coeffs_ok th g ->
+    g_cost cost shared full (g_hard_sel g (cheapest cost (g_flatten g))) g <= g_cost cost shared full th g /\
+    g_cost cost shared full th g <= g_cost cost shared full (g_hard_sel g (dearest cost (g_flatten g))) g.
+  Proof. intros. apply sn_cost_convex; [apply g_consistent_flatten|apply g_coeffs_flatten]; assumption. Qed.
+
+  Theorem g_cost_selection_bounds : forall shared full g win, g_blocks_consistent g -> g_winners_ok win g ->
+    g_cost cost shared full (g_hard_sel g (cheapest cost (g_flatten g))) g <= g_cost cost shared full (g_hard_sel g win) g /\
+    g_cost cost shared full (g_hard_sel g win) g <= g_cost cost shared full (g_hard_sel g (dearest cost (g_flatten g))) g.
+  Proof. intros. apply sn_cost_selection_bounds; [apply g_consistent_flatten|apply g_winners_flatten]; assumption. Qed.
+
+  Theorem g_cost_affine : forall shared full th g b lam u v, length u = length v ->
+    g_cost cost shared full (upd th b (lin lam u v)) g ==
+    lam * g_cost cost shared full (upd th b u) g + (1 - lam) * g_cost cost shared full (upd th b v) g.
+  Proof. intros. apply sn_cost_affine. assumption. Qed.
+
+  (* hard selection = the metric computed from scratch on the exported network (guards on the leaf layers of the bodies) *)
+  Theorem g_cost_hard_eq_export_cost_shared : forall inb full win g e,
+    site_independent cost -> g_blocks_consistent g -> names_ok inb (g_flatten g) -> blocks_disjoint (g_flatten g) ->
+    g_export win g = Some e ->
+    g_cost cost true full (g_hard_sel g win) g == g_plain_cost cost true full inb e.
+  Proof.
+    intros inb full win g e Hs Hc Hn Hd He. unfold g_cost, g_plain_cost, g_hard_sel.
+    apply sn_cost_hard_eq_export_cost_shared; try assumption; [apply g_consistent_flatten, Hc|].
+    rewrite g_flatten_export, He. reflexivity.
+  Qed.
+
+  Theorem g_cost_hard_eq_export_cost_per_call : forall inb full win g e,
+    site_independent cost -> g_blocks_consistent g -> names_ok inb (g_flatten g) -> winners_nodup win (g_flatten g) ->
+    g_export win g = Some e ->
+    g_cost cost false full (g_hard_sel g win) g == g_plain_cost cost false full inb e.
+  Proof.
+    intros inb full win g e Hs Hc Hn Hd He. unfold g_cost, g_plain_cost, g_hard_sel.
+    apply sn_cost_hard_eq_export_cost_per_call; try assumption; [apply g_consistent_flatten, Hc|].
+    rewrite g_flatten_export, He. reflexivity.
+  Qed.
+End GC06.
